@@ -130,7 +130,7 @@ CHECKS = {
  "C16": ("model_checking",
          "StateMachine.tla: application state over 2 stores x 3 keys, command scripts (writes, events, ok/fail), ExecuteTx / Commit (root = SMT.Tree of the state, deleted keys absent) / Revert / Crash+Restart; Atomic, EventsBookkeeping, RootFunctionOfState, RevertInverse checked exhaustively (243 k states quick, 4.9 M thorough); "
          "~25 k histories replayed on the real framework.ABIHandler + statemachine.Executer with a scripted module using the engine's exact call sequences; events, store contents, state-DB dumps and state roots (SHA-256 fold of the spec term) compared after every step. The module's BeforeCommandExecute hook writes state and logs a revertible event: both must survive a failing command (the state 'before the command ran' is the state after the hooks).",
-         "Genesis execution is not modelled; the application is at most three blocks ahead of the engine at a restart (Lose: the engine comes back one or two tips behind); empty values not generated.",
+         "Genesis execution is not modelled; the application is at most three blocks ahead of the engine at a restart (Lose: the engine comes back one or two tips behind); one key per store takes the empty byte string as a value.",
          "TLC model checking of StateMachine.tla + replay of TLC histories on the real ABIHandler", "DESIGN.md section 4 C16"),
  "C17": ("model_checking",
          "ReqResp.tla with implementation-shape constants (RegisterFirst, DeliverUnderLock, Buffered, TrySend): NoDeadlock, NoLostReply, Correlated, NoLeak, liveness under fairness checked exhaustively for the shape the traces exhibit and the safe shape (181 k states at 2 calls x 1 retry); "
